@@ -11,6 +11,7 @@ func checkC01(c *Ctx) {
 	ruleAlias(c)
 	ruleCursorPair(c)
 	ruleProvOffsets(c)
+	ruleLineComplete(c)
 	c.Assume("arithmetic inside padNulls, unpaddedNullLength, lineCount and fillNulls is trusted; ordering and non-overlap of ranges are not decided")
 }
 
@@ -18,6 +19,7 @@ func checkC08(c *Ctx) {
 	ruleParserLatch(c)
 	ruleSticky(c)
 	ruleReadNUsed(c)
+	ruleLineComplete(c)
 	ruleSameMachine(c)
 	ruleCtor(c)
 	c.Assume("equality of the produced trees under arbitrary chunking (CR look-ahead at a buffer end, NUL padding across chunk boundaries, buffer growth) is arithmetic over buffer contents and is not decided")
@@ -51,6 +53,9 @@ func init() {
 			Old: "\t\t\tif !p.readline() {\n\t\t\t\treturn nil, p.err\n\t\t\t}", New: "\t\t\tif !p.readline() {\n\t\t\t\treturn nil, io.EOF\n\t\t\t}", Expect: "STICKY"},
 		Control{Name: "Rewrite-inside-block-loop", Props: []string{"C08", "C12"}, File: "parse.go",
 			Old: "\t\tblocks = append(blocks, block)\n\t\trefMap.Extract(block.Source, block.AsNode())", New: "\t\tblocks = append(blocks, block)\n\t\trefMap.Extract(block.Source, block.AsNode())\n\t\t(&InlineParser{ReferenceMatcher: refMap}).Rewrite(block)", Expect: "TWOPASS"},
+		Control{Name: "cr-lookahead-folded", Props: []string{"C08", "C01"}, File: "parse.go",
+			Old: "\t\t\tif eolStart+1 < len(p.buf) {\n\t\t\t\t// Carriage return with enough buffer for 1 byte lookahead.\n\t\t\t\teolEnd = eolStart + 1\n\t\t\t\tif p.buf[eolEnd] == '\\n' {\n\t\t\t\t\teolEnd++\n\t\t\t\t}\n\t\t\t\tbreak\n\t\t\t}\n\t\t\tif p.err != nil {\n\t\t\t\t// Carriage return right before EOF.\n\t\t\t\teolEnd = len(p.buf)\n\t\t\t\tbreak\n\t\t\t}\n",
+			New: "\t\t\teolEnd = eolStart + 1\n\t\t\tif eolEnd < len(p.buf) && p.buf[eolEnd] == '\\n' {\n\t\t\t\teolEnd++\n\t\t\t}\n\t\t\tbreak\n", Expect: "LINE-COMPLETE"},
 		Control{Name: "neg-readline-err-test-as-switch", Props: []string{"C08"}, File: "parse.go", Negative: true,
 			Old: "\t\tif p.err != nil {\n\t\t\teolEnd = len(p.buf)\n\t\t\tbreak\n\t\t}\n\n\t\t// Grab more data", New: "\t\tif atEOF := p.err != nil; atEOF {\n\t\t\teolEnd = len(p.buf)\n\t\t\tbreak\n\t\t}\n\n\t\t// Grab more data"},
 	)
